@@ -137,6 +137,11 @@ func init() {
 	// keys may name one obligation ("<function>#<obligation substring>"): looked up before the function key
 	scenario(".(*DB).UpdateById#key-is-id", ".", "clover_replay_test.go", "TestVerifReplayUpdateRewritesId")
 	scenario(".(*DB).replaceDocs#key-is-id", ".", "clover_replay_test.go", "TestVerifReplayUpdateRewritesId")
+	scenario(".(*IndexSelectVisitor).VisitNotCriteria#post.select", ".", "clover_replay_test.go", "TestVerifReplayPlannerNot")
+	scenario(".(*FieldRangeVisitor).VisitBinaryCriteria#post.ranges", ".", "clover_replay_test.go", "TestVerifReplayPlannerOr")
+	scenario(".(*FieldRangeVisitor).VisitNotCriteria#post.ranges", ".", "clover_replay_test.go", "TestVerifReplayPlannerDoubleNot")
+	scenario(".unaryCriteriaToRange#post.cover", ".", "clover_replay_test.go", "TestVerifReplayPlannerFieldOperand")
+	scenario(".(*DB).IterateDocs#iterateDocs.norm", ".", "clover_replay_test.go", "TestVerifReplayIterateDocsRaw")
 	scenario(".(*DB).DeleteById#size-accounts", ".", "clover_replay_test.go", "TestVerifReplayDeleteAbsent")
 	imp := &replayFamily{pkgDir: ".", testFile: "clover_replay_test.go", testName: "TestVerifReplayImport",
 		build: func(r *Result, vals map[string]string) (interface{}, bool) { return "fixed scenario", true }}
